@@ -182,7 +182,9 @@ def run_binary(example, inst, path, width, threads):
     secs = time.time() - t0
     out = p.stdout + (("\n[stderr] " + p.stderr[-600:]) if p.stderr.strip() else "")
     if p.returncode != 0 or "panicked" in p.stderr:
-        return dict(kind="crash", cmd=cmd, out="exit code %s\n%s" % (p.returncode, out[-1500:]), got=None, secs=secs)
+        m = re.search(r"panicked at ([^\n]*)\n([^\n]*)", p.stderr)
+        why = ("panic at %s %s" % (m.group(1).replace("/repo/", ""), m.group(2))) if m else "exit code %s" % p.returncode
+        return dict(kind="crash", cmd=cmd, out="exit code %s\n%s" % (p.returncode, out[-1500:]), got=None, secs=secs, why=why)
     got, proved = parse_output(example, p.stdout)
     if got is None:
         return dict(kind="crash", cmd=cmd, out="no objective in the output\n" + out[-1500:], got=None, secs=secs)
@@ -322,13 +324,25 @@ def check_c16(tier):
         pe["failures"]["%s/%s" % (cls, kind)] = pe["failures"].get("%s/%s" % (cls, kind), 0) + 1
         failures.append((ins["size"], len(ins["text"]), ex, cls, kind, ins, opt, want, res, w, t))
     failures.sort(key=lambda f: (f[0], f[1]))
+    with open(workfile("c16_failures.json"), "w") as f:       # scratch copy of every failing run, for triage
+        json.dump([{"example": x[2], "class": x[3], "kind": x[4], "shape": x[5]["shape"], "instance": x[5]["text"], "oracle": x[6],
+                    "expected": x[7], "got": x[8]["got"], "why": x[8].get("why"), "width": x[9], "threads": x[10],
+                    "command": " ".join(x[8]["cmd"])} for x in failures], f, indent=1)
+    findings = {}
+    for x in failures:
+        fk = "%s/%s" % (x[3], x[4])
+        if fk not in findings:
+            findings[fk] = {"failing_runs": 0, "smallest_instance": x[5]["text"], "command": " ".join(x[8]["cmd"]), "oracle": x[6],
+                            "expected": x[7], "printed": x[8]["got"], "why": x[8].get("why")}
+        findings[fk]["failing_runs"] += 1
+    chk.cov["failure_classes"] = findings
     seen_cls = {}
     for (size, _, ex, cls, kind, ins, opt, want, res, w, t) in failures:
         key = (cls, kind)
         seen_cls[key] = seen_cls.get(key, 0) + 1
         if seen_cls[key] > 3: continue           # the smallest witnesses of each class are enough
         what = {"wrong-objective": "prints objective %s, the enumeration gives %s" % (res["got"], want),
-                "hang": "does not terminate within %d s" % RUN_TIMEOUT, "crash": "crashes (%s)" % res["out"].strip().split("\n")[-1][:160],
+                "hang": "does not terminate within %d s" % RUN_TIMEOUT, "crash": "crashes (%s)" % res.get("why", res["out"].strip().split("\n")[-1])[:200],
                 "not-proved": "reports an aborted / unproved search without any cutoff"}[kind]
         chk.violation("property", "example %s (%s, shape %s, width %s, threads %s) %s" % (ex, cls, ins["shape"], w, t, what),
                       {"example": ex, "class": cls, "shape": ins["shape"], "instance": ins["text"], "instance_arg": ins["arg"],
